@@ -1,5 +1,6 @@
 import Driver.Parse
 import EchoVerif.Model.Cas
+import EchoVerif.Model.WscStore
 
 /-! Line-protocol handlers for C20 (`C20.mem`, `C20.disk`, `C20.ret`).
     A line carries a blob dictionary `n (<bytes-hex> <hash64>)*`: the hash column is the real BLAKE3 digest
@@ -263,7 +264,133 @@ def ret : P String := do
     s!"stat {m.len} {m.byteCount} {m.pinnedCount} " ++ String.join (d.map (fun p => b01 (m.isPinned p.2)))
   pure (" ; ".intercalate outs ++ " ;; " ++ " ; ".intercalate fin ++ " ; " ++ st r.s0 ++ " ; " ++ st r.s1)
 
+
+/-! ### WSC snapshot store: retained-evidence export / re-import and the two-file publication protocol -/
+
+namespace WscD
+open EchoVerif.Wsc
+
+def material : P Material := do
+  let digest ← id32; let coord ← id32; let kind ← num; let posture ← num
+  pure { digest, coord, kind, posture }
+
+def reading : P Reading := do
+  let readingId ← id32; let coord ← id32; let payload ← id32; let envelope ← id32; let posture ← num
+  pure { readingId, coord, payload, envelope, posture }
+
+structure RSet where
+  id : Option Nat
+  ms : List Material
+  rs : List Reading
+
+def rset : P RSet := do
+  let t ← tok
+  let id ← (if t == "-" then pure none else match id32? t with
+    | some i => pure (some i)
+    | none => throw s!"bad envelope id {t}")
+  let ms ← counted material
+  let rs ← counted reading
+  pure { id, ms, rs }
+
+def matS (m : Material) : String := s!" {id32Tok m.digest} {id32Tok m.coord} {m.kind} {m.posture}"
+def readS (r : Reading) : String :=
+  s!" {id32Tok r.readingId} {id32Tok r.coord} {id32Tok r.payload} {id32Tok r.envelope} {r.posture}"
+def recsS (ms : List Material) (rs : List Reading) : String :=
+  s!"m {ms.length}" ++ String.join (ms.map matS) ++ s!" r {rs.length}" ++ String.join (rs.map readS)
+
+/-- Canonical records a set exports, or `none` on an identity conflict. -/
+def RSet.canon (x : RSet) : Option (List Material × List Reading) :=
+  match canonMaterials x.ms, canonReadings x.rs with
+  | some ms, some rs => some (ms, rs)
+  | _, _ => none
+
+def setS (x : RSet) : String :=
+  match x.canon with
+  | none => "conflict"
+  | some (ms, rs) =>
+    "ok " ++ (match x.id with | some i => id32Tok i | none => "-") ++ " " ++ (basisDigest ms rs).render
+      ++ " " ++ recsS ms rs
+
+inductive WCmd where
+  | op (o : Wsc.Op)
+  | read (id : Nat)
+  | list
+  | imp
+  | reopen
+  | skip      -- op on a set whose export was refused
+
+def resS : Res → String
+  | .ok => "ok" | .missing => "missing" | .incomplete => "incomplete" | .obstructed => "obstructed"
+
+def setIx (sets : List RSet) : P (Option Nat) := do
+  let i ← num
+  match nth? sets i with
+  | some x => pure (match x.canon with | some _ => x.id | none => none)
+  | none => throw s!"bad set index {i}"
+
+def wcmd (sets : List RSet) : P WCmd := do
+  let t ← tok
+  let one (f : Nat → WCmd) : P WCmd := do
+    match (← setIx sets) with
+    | some id => pure (f id)
+    | none => pure .skip
+  match t with
+  | "write" => one (fun id => .op (.write id))
+  | "stage" => one (fun id => .op (.stage id))
+  | "commit" => one (fun id => .op (.commit id))
+  | "read" => one .read
+  | "delenv" => one (fun id => .op (.delEnv id))
+  | "delmark" => one (fun id => .op (.delMark id))
+  | "flipenv" => do
+      let i ← setIx sets; let k ← num
+      pure (match i with | some id => .op (.flipEnv id k) | none => .skip)
+  | "flipmark" => do
+      let i ← setIx sets; let k ← num
+      pure (match i with | some id => .op (.flipMark id k) | none => .skip)
+  | "plantenv" => do
+      let i ← setIx sets; let j ← setIx sets
+      pure (match i, j with | some id, some src => .op (.plantEnv id src) | _, _ => .skip)
+  | "list" => pure .list
+  | "import" => pure .imp
+  | "reopen" => pure .reopen
+  | o => throw s!"bad op {o}"
+
+def listS (s : Store) : String := s!"list {s.list.length}" ++ String.join (s.list.map (fun i => " " ++ id32Tok i))
+
+def wstep (recs : Nat → List Material × List Reading) (s : Store) : WCmd → Store × String
+  | .op (.write id) => let r := s.write id; (r.1, resS r.2)
+  | .op (.stage id) => let r := s.stage id; (r.1, resS r.2)
+  | .op (.commit id) => let r := s.commit id; (r.1, resS r.2)
+  | .op o => (s.step o, "adv")
+  | .read id => (s, match s.read id with | .ok => "ok " ++ id32Tok id | r => resS r)
+  | .list => (s, listS s)
+  | .imp => (s, match s.importRetention recs with
+      | .blocked r => "blocked " ++ resS r
+      | .conflict => "conflict"
+      | .records ms rs => "records " ++ recsS ms rs)
+  | .reopen => (s, "reopened")
+  | .skip => (s, "no-envelope")
+
+def wsc : P String := do
+  let sets ← counted rset
+  let cmds ← counted (wcmd sets)
+  done
+  let recs : Nat → List Material × List Reading := fun id =>
+    match sets.find? (fun x => x.id == some id && x.canon.isSome) with
+    | some x => (match x.canon with | some p => p | none => ([], []))
+    | none => ([], [])
+  let (s, outs) := cmds.foldl (fun (acc : Store × List String) c =>
+      let (s', o) := wstep recs acc.1 c
+      (s', acc.2 ++ [o])) (Store.empty, [])
+  let fin := sets.map (fun x => match x.canon, x.id with
+    | some _, some id => (match s.read id with | .ok => "ok " ++ id32Tok id | r => resS r)
+    | _, _ => "no-envelope")
+  pure (" ; ".intercalate (sets.map setS) ++ " ;; " ++ " ; ".intercalate outs ++ " ;; " ++ listS s ++ " ; "
+    ++ " ; ".intercalate fin)
+
+end WscD
+
 def handlers : List (String × (List String → String)) :=
-  [("C20.mem", runP mem), ("C20.disk", runP disk), ("C20.ret", runP ret)]
+  [("C20.mem", runP mem), ("C20.disk", runP disk), ("C20.ret", runP ret), ("C20.wsc", runP WscD.wsc)]
 
 end Driver.C20
